@@ -233,7 +233,9 @@ pub fn run_app_cases(r: &mut Report, addr: SocketAddr, m: &AppModel, rng: &mut R
             r.count("requests_matching_several_routes", 1);
             r.nontrivial(fnv(format!("{:?}|{:?}|{}|{}", app_json(m).to_string(), host, path, ws).as_bytes()));
         }
-        let variants: Vec<(&str, Option<&str>, Vec<(&str, &str)>)> = if ws { vec![("GET", None, vec![])] } else { vec![("GET", None, vec![]), (*rng.pick(&["POST", "PUT", "DELETE", "GET"]), Some("q=1&r=/other"), vec![("X-Extra", "1"), ("Accept", "*/*")])] };
+        // the query may itself contain `?`, `/`, `*` and text that looks like a registered path (RFC 3986 allows all of them)
+        let q: &str = *rng.pick(&["q=1&r=/other", "", "next=/docs/x?y=1", "what?", "a?b?c", "?", "x=*", "/static/index.html", "q=%3F&r=%2F"]);
+        let variants: Vec<(&str, Option<&str>, Vec<(&str, &str)>)> = if ws { vec![("GET", None, vec![]), ("GET", Some(q), vec![("X-Extra", "1")])] } else { vec![("GET", None, vec![]), (*rng.pick(&["POST", "PUT", "DELETE", "GET"]), Some(q), vec![("X-Extra", "1"), ("Accept", "*/*")])] };
         for (vi, (method, query, extra)) in variants.iter().enumerate() {
             let ex = |got: &str| J::obj(vec![("app", app_json(m)), ("host", host.as_ref().map(J::s).unwrap_or(J::Null)), ("path", J::s(&path)), ("websocket", J::Bool(ws)), ("method", J::s(*method)), ("query", query.map(J::s).unwrap_or(J::Null)), ("expected", J::s(&want_name)), ("got", J::s(show(got.as_bytes(), 80))), ("runtime", J::s(runtime))]);
             match ask(addr, method, host.as_deref(), &path, *query, extra, ws) {
